@@ -26,7 +26,9 @@ inductive Frag
   | schemaQ (s : String)        -- a string taken from the schema, quoted (`%q`)
   | schemaEnum (vs : List J)    -- the enum list as JSON
   | schemaTypes (ts : List String)
+  | indices (l : List Nat)      -- indices of matching oneOf branches (`%v` of []int)
   | valueKey (k : String)       -- a property NAME of the value, quoted (`%q`)
+  | valueStr (s : String)       -- a STRING VALUE taken from the validated value: never produced (C19)
   | validatorText (s : String)  -- text produced by a format validator / the regexp compiler
 
 structure Err where
@@ -110,6 +112,11 @@ def report (m : Mode) (t : List Ev) : Res :=
   | .failfast => (match firstErrL t with | none => .ok | some _ => .rej [])
   | .multi => (match collectL t with | [] => .ok | es => .rej es)
 
+/-- indices of the passing traces -/
+def passIdx : List (List Ev) → Nat → List Nat
+  | [], _ => []
+  | t :: ts, i => (if passesL t then [i] else []) ++ passIdx ts (i + 1)
+
 /-! ### the trace generator -/
 
 def here (field : String) (v : J) (reason : List Frag) : Err := { field := field, value := some v, reason := reason }
@@ -141,7 +148,8 @@ def numChecks (kw : Kw) (q : Rat) : List Check :=
      (if kw.requireInt then here "type" v [.lit "value must be an integer"] else typeErr kw v),
      !kw.requireInt),
     (!numFormatOK kw q, here "format" v [.lit "integer doesn't match the format ", .schemaQ kw.format, .lit " (",
-        .validatorText "number must be in range", .lit ")"], false),
+        .validatorText (match intFormatRange kw.format with
+          | some (lo, hi) => s!"value should be between {lo} and {hi}" | none => ""), .lit ")"], false),
     (exclMinBad kw q, here "exclusiveMinimum" v [.lit "number must be more than ", .schemaNum (kw.minimum.getD 0)], false),
     (exclMaxBad kw q, here "exclusiveMaximum" v [.lit "number must be less than ", .schemaNum (kw.maximum.getD 0)], false),
     (minBad kw q, here "minimum" v [.lit "number must be at least ", .schemaNum (kw.minimum.getD 0)], false),
@@ -206,13 +214,18 @@ def ownEvs (env : Env) (kw : Kw) (v : J) (childEvs : List Ev) : List Ev :=
   | .arr xs => arrEvs kw xs childEvs
   | .obj kvs => objEvs kw kvs childEvs
 
+def oneOfReason (oneSubs : List (List Ev)) : List Frag :=
+  if decide (1 < passCount oneSubs) then
+    [.lit "value matches more than one schema from \"oneOf\" (matches schemas at indices ", .indices (passIdx oneSubs 0), .lit ")"]
+  else [.lit "value doesn't match any schema from \"oneOf\""]
+
 /-- non-recursive assembly of one schema visit, in the code's order -/
 def evCombine (env : Env) (kw : Kw) (a b c : List S) (shortcut : Bool) (v : J)
     (notEvs : List Ev) (oneSubs anySubs allSubs : List (List Ev)) (childEvs : List Ev) : List Ev :=
   if v.isNull && kw.permitsNull then [] else
   if shortcut then (if v.isNull then [.fail nullErr true] else []) else
   notEvs ++
-  (if c.isEmpty then [] else [.comp .oneOf (here "oneOf" v [.lit "value doesn't match exactly one schema from \"oneOf\""]) oneSubs]) ++
+  (if c.isEmpty then [] else [.comp .oneOf (here "oneOf" v (oneOfReason oneSubs)) oneSubs]) ++
   (if b.isEmpty then [] else [.comp .anyOf (here "anyOf" v [.lit "doesn't match any schema from \"anyOf\""]) anySubs]) ++
   (if a.isEmpty then [] else [.comp .allOf (here "allOf" v [.lit "doesn't match all schemas from \"allOf\""]) allSubs]) ++
   (if v.isNull && (!c.isEmpty || !b.isEmpty || !a.isEmpty) then []
@@ -230,7 +243,7 @@ mutual
 def events (env : Env) : S → J → List Ev
   | .mk kw a b c n i p ad, v =>
     evCombine env kw a b c (S.mk kw a b c n i p ad).shortcut v
-      (match n with | none => [] | some s => [.comp .not (here "not" v []) [events env s v]])
+      (match n with | none => [] | some s => [.comp .not (here "not" v [.lit "Doesn't match schema \"not\""]) [events env s v]])
       (eventsEach env c v) (eventsEach env b v) (eventsEach env a v)
       (match v with
        | .arr xs => (match i with | none => [] | some s => itemsEvs env s xs 0)
